@@ -64,10 +64,16 @@ def lin(I, c, i):
     f = _LIN[key]
     if not I.ex.ghost.get("lin_ax_" + key):
         j = z3.Int("j_lin")
-        I.ex.assume(z3.And(f(0) == 0, z3.ForAll([j], f(j + 1) == f(j) + c)))
+        I.ex.assume(f(0) == 0)
+        I.ex.assume(z3.ForAll([j], f(j + 1) == f(j) + c))
         I.ex.ghost["lin_ax_" + key] = True
-        I.ex.ghost.setdefault("lin", {})[key] = f
+        I.ex.ghost.setdefault("lin", {})[key] = (f, c)
     return f(i)
+
+
+def lin_instances(I, j):
+    """instances f(j + 1) = f(j) + c of every lin_c recurrence assumed on this path"""
+    return [f(j + 1) == f(j) + c for f, c in I.ex.ghost.get("lin", {}).values()]
 
 
 def s_mul(I, a, b):
@@ -455,12 +461,22 @@ def _any(I, t, *a, **k):
     """any() over a symbolic extent: a fresh Bool b with the contract  b <=> exists index. element  (assumed)"""
     b = I.ex.fresh("bool", "any")
     idx = [z3.Int("i_any%d" % j) for j in range(len(t.shape))]
-    rng = z3.And([z3.And(i >= 0, i < to_z3(n)) for i, n in zip(idx, t.shape)])
-    e = t.elem(*idx)
-    e = z3.BoolVal(e) if isinstance(e, bool) else e
-    ax = z3.And(z3.Implies(b, z3.Exists(idx, z3.And(rng, e))), z3.ForAll(idx, z3.Implies(z3.And(rng, e), b)))
+    telem = t.elem
+
+    def rng_of(ix):
+        return z3.And([z3.And(to_z3(i) >= 0, to_z3(i) < to_z3(n)) for i, n in zip(ix, t.shape)])
+
+    def el(ix):
+        e_ = telem(*ix)
+        return z3.BoolVal(e_) if isinstance(e_, bool) else e_
+
+    fa = lambda ix: z3.Implies(z3.And(rng_of(ix), el(ix)), b)  # instance builder of the universal half
+    ax = z3.And(z3.Implies(b, z3.Exists(idx, z3.And(rng_of(idx), el(idx)))), z3.ForAll(idx, fa(idx)))
     I.ex.assume(ax)
-    I.ex.ghost.setdefault("any_axioms", []).append(ax)  # a sidecar may drop these hypotheses once it has derived what it needs (weakening is sound)
+    I.ex.ghost.setdefault("any_axioms", []).append(ax)
+    # the sidecar may name index points at which every any() contract is instantiated (FORALL-elimination), by rank
+    for pt in I.ex.ghost.get("any_points", {}).get(len(t.shape), []):
+        I.ex.instance(fa(list(pt)))
     return b
 
 
@@ -490,13 +506,24 @@ def _min(I, t, other=None, keepdim=False, dim=None):
         return c if p is False else z3.And(z3.Not(p) if not isinstance(p, bool) else z3.BoolVal(not p), c)
 
     # assumed contract of min over a (non-empty) dimension: a lower bound of every entry, attained at some finite entry
-    I.ex.assume(z3.ForAll(oi + [k], z3.Implies(z3.And(orng, k >= 0, k < n), fin_le(t.elem(*full(k)), m(*oi)))))
-    wk = w(*oi)
-    I.ex.assume(z3.ForAll(oi, z3.Implies(orng, z3.And(wk >= 0, wk < n, fin_eq(t.elem(*full(wk)), m(*oi))))))
+    def lb(o, kk):  # instance builder: the minimum at output index o is a lower bound of the entry at position kk
+        o = [to_z3(x) for x in o]
+        rng_ = z3.And([z3.And(i >= 0, i < to_z3(nn)) for i, nn in zip(o, t.shape[:d] + t.shape[d + 1:])])
+        return z3.Implies(z3.And(rng_, kk >= 0, kk < n), fin_le(telem(*(o[:d] + [kk] + o[d:])), m(*o)))
+
+    def att(o):  # instance builder: the minimum at output index o is attained at the finite entry at position w(o)
+        o = [to_z3(x) for x in o]
+        rng_ = z3.And([z3.And(i >= 0, i < to_z3(nn)) for i, nn in zip(o, t.shape[:d] + t.shape[d + 1:])])
+        wk_ = w(*o)
+        return z3.Implies(rng_, z3.And(wk_ >= 0, wk_ < n, fin_eq(telem(*(o[:d] + [wk_] + o[d:])), m(*o))))
+
+    telem = t.elem
+    I.ex.assume(z3.ForAll(oi + [k], lb(oi, k)))
+    I.ex.assume(z3.ForAll(oi, att(oi)))
     I.ex.oblige("min.reduced_dimension_not_empty", n >= 1)
     vals = ST(t.shape[:d] + t.shape[d + 1:], lambda *idx: m(*[to_z3(i) for i in idx]), "float")
     idxs = ST(t.shape[:d] + t.shape[d + 1:], lambda *idx: w(*[to_z3(i) for i in idx]), "long")
-    I.ex.ghost.setdefault("mins", []).append((m, w, t, d))
+    I.ex.ghost.setdefault("mins", []).append({"m": m, "w": w, "t": t, "d": d, "lb": lb, "att": att})
     return ct.MinMaxResult(vals, idxs)
 
 
